@@ -358,6 +358,13 @@ func (c *Conn) HandshakeContext(ctx context.Context) error {
 		common.LocalVersion,
 	)
 	if len(c.handshakeConfig.LocalCipherSuites) == 0 {
+		if start.postSetup != nil {
+			// Version negotiation already consumed the peer's hello: the peer
+			// is waiting for an answer, so tell it the handshake is over
+			// instead of leaving it to its timeout.
+			_ = c.notify(ctx, alert.Fatal, alert.HandshakeFailure)
+		}
+
 		return dtlserrors.ErrNoAvailableCipherSuites
 	}
 
